@@ -208,6 +208,10 @@ func (l *lexer) expr() (Expr, error) {
 			ty := "int"
 			if l.peek().k == "id" {
 				ty = l.next().v
+				for l.isOp(".") {
+					l.next()
+					ty += "." + l.next().v
+				}
 			}
 			q.Vars = append(q.Vars, SpecParam{n.v, ty})
 			if l.isOp(",") {
